@@ -717,7 +717,7 @@ func (w *World) Overflow(dir string, n int) {
 	// behind the marker is compared exactly
 	w.Sync(got)
 	w.overflowing = false
-	if w.Feat["overflow-errors-received"] == 0 {
+	if w.ovfErrs == 0 {
 		w.find(FErrors, "a burst of %d notifications overflowed the kernel queue (limit %d) but ErrEventOverflow was not received on Errors", n, MaxQueuedEvents())
 	}
 	w.Feat["overflow-bursts"]++
